@@ -548,6 +548,28 @@ class CallMixin:
         return self.pow(args[0], args[1], st, node)
 
     def _minmax(self, args, kw, st, node, is_max):
+        if "key" in kw and len(args) == 1:
+            # max(xs, key=f): assumed contract -- the first element whose key bounds all keys
+            self.externals_used.add("max/min with key")
+            src = args[0]
+            if not is_list(src.kind):
+                src = self.view_to_list(self.iter_view(src, st, node), st)
+            ek = self.elem_kind(src)
+            n = self.llen(st, src)
+            self.oblige(st, "safe", "max-nonempty", n > 0, node, exc="ValueError")
+            A = self.larr(st, src)
+            p = fresh("argmax", I)
+            i = z3.Int("mx_i")
+            st.assume(z3.And(0 <= p, p < n))
+            res = self.from_term(ek, A[p])
+            self.assume_wf(st, res)
+            kp = self.key_term(kw["key"], res, st, node)
+            ki = self.key_term(kw["key"], self.from_term(ek, A[i]), st, node, z3.And(0 <= i, i < n))
+            _, tp, ti = ops.num_join(kp, ki)
+            st.assume(z3.ForAll([i], z3.Implies(z3.And(0 <= i, i < n), (tp >= ti) if is_max else (tp <= ti))))
+            cnt = self.max_counter = getattr(self, "max_counter", -1) + 1
+            st.env[f"MAXARG{cnt}"] = V(INT, p)
+            return res
         if "key" in kw or len(args) == 1:
             c = self.reg.contracts.get("max" if is_max else "min")
             if c is None:
@@ -615,11 +637,57 @@ class CallMixin:
             c = self.reg.contracts.get("sum_int", c)
         return self.apply_contract(c, a, kw, st, node)
 
+    def key_term(self, keyfn: V, elem: V, st, node, guard=None):
+        """Value of key(elem) as a pure term (the key function must not change the heap).  Evaluated on a
+        fork under `guard` (the element's index is in range), so obligations raised inside the key function
+        are obligations for every element."""
+        s2 = st.fork()
+        if guard is not None:
+            s2.assume(guard)
+        sig = s2.sig()
+        outs = list(self.call_value(keyfn, [elem], {}, s2, node))
+        if len(outs) != 1 or outs[0][1].sig() != sig:
+            raise Unsupported("key function is not a pure, non-forking expression", node)
+        return outs[0][0]
+
     def bi_sorted(self, args, kw, st, node):
-        c = self.reg.contracts.get("sorted")
-        if c is None:
-            raise Unsupported("sorted needs an external contract", node)
-        return self.apply_contract(c, args, kw, st, node)
+        """sorted(xs, key=f, reverse=b): assumed contract -- a fresh list that is a permutation of xs (explicit
+        permutation and inverse arrays, exposed to specs as SORTPERM<n> / SORTINV<n>) ordered by the key."""
+        self.externals_used.add("sorted")
+        src = args[0]
+        if not is_list(src.kind):
+            src = self.view_to_list(self.iter_view(src, st, node), st)
+        keyfn = kw.get("key")
+        rev = kw.get("reverse")
+        reverse = False
+        if rev is not None:
+            rs = z3.simplify(rev.term)
+            if not (z3.is_true(rs) or z3.is_false(rs)):
+                raise Unsupported("sorted with symbolic reverse", node)
+            reverse = z3.is_true(rs)
+        ek = self.elem_kind(src)
+        n = self.llen(st, src)
+        A = self.larr(st, src)
+        Rr = fresh("sorted", z3.ArraySort(I, ek.sort()))
+        res = self.new_list(st, ek, n, Rr)
+        P = self.new_list(st, INT, n, fresh("sperm", z3.ArraySort(I, I)))
+        Q = self.new_list(st, INT, n, fresh("sinv", z3.ArraySort(I, I)))
+        Pa, Qa = self.larr(st, P), self.larr(st, Q)
+        i, j = z3.Ints("so_i so_j")
+        rng = lambda v: z3.And(0 <= v, v < n)
+        st.assume(z3.ForAll([i], z3.Implies(rng(i), z3.And(rng(Pa[i]), Rr[i] == A[Pa[i]], Qa[Pa[i]] == i))))
+        st.assume(z3.ForAll([i], z3.Implies(rng(i), z3.And(rng(Qa[i]), Pa[Qa[i]] == i, Rr[Qa[i]] == A[i]))))
+        if keyfn is not None:
+            ki = self.key_term(keyfn, self.from_term(ek, Rr[i]), st, node, rng(i))
+            kj = self.key_term(keyfn, self.from_term(ek, Rr[j]), st, node, rng(j))
+            _, ti, tj = ops.num_join(ki, kj)
+        else:
+            ti, tj = Rr[i], Rr[j]
+        order = (ti >= tj) if reverse else (ti <= tj)
+        st.assume(z3.ForAll([i, j], z3.Implies(z3.And(0 <= i, i < j, j < n), order)))
+        cnt = self.sort_counter = getattr(self, "sort_counter", -1) + 1
+        st.env[f"SORTPERM{cnt}"], st.env[f"SORTINV{cnt}"], st.env[f"SORTSRC{cnt}"] = P, Q, src
+        return res
 
     def bi_deepcopy(self, args, kw, st, node):
         """copy.deepcopy on the container shapes met in the units (assumed contract: fresh, disjoint, isomorphic)."""
